@@ -17,6 +17,7 @@ class C08(Prop):
     model = 'C08'
     level = 'proof'
     technique = 'history correspondence + step-function proof'
+    search_scale = 2          # the widened search after a break: 2 x the thorough stream per seed
     level_text = ('rejected_no_trace proved for every op constructor of the repaired step function and lifted to every reachable '
                   'state; tied by replaying malformed-call histories on implementation and extracted model with a digest of the '
                   'full canonical dump after every line')
